@@ -5,7 +5,7 @@
      M <base> <src> <src> ...      merge scenario: R <du_all> H <heap merged> S <src after>... T <target reaches a source object 0|1>
      P <builtin> op op ...         process scenario; ops: new | file <i> <cv> | ovr <i> <key> <cv> | ovrnone <i> <key>
                                    | lang <i> <key> | langnone <i> | create <i>
-                                   output: for each create  C <i> <sections|ERR> <options|ERR> ; then F <sections of every builder|ERR> ; ...
+                                   output: for each create  C <i> <sections|ERR> <options|ERR> <options of all non-target languages|ERR> ; then F <sections of every builder|ERR> ; ...
                                            then X <what every context reports now> ; ...
      C <builtin> <nfiles> <file>... <argname> <atom> ...    CLI scenario through the translated cli_ops: C 0 <sections|ERR> <options|ERR> *)
 open Model
@@ -57,6 +57,15 @@ let rec show_cv = function
 let items = function Node m -> m | Leaf _ -> failwith "mapping expected"
 let show_sections = function Some s -> show_cv (Node s) | None -> "ERR"
 
+(* everything a context reports after get_supported_languages(): sections, options of all non-target languages *)
+let show_observed (b : builder) cs =
+  match cs, resolve_language b with
+  | Some s, Some l ->
+      let (os, s') = observe_ctx (section_of l) s in
+      if List.exists (fun (_, o) -> o = None) os then (show_sections (Some s'), "ERR")
+      else (show_sections (Some s'), show_cv (Node (List.map (fun (n, o) -> (n, match o with Some x -> Node x | None -> Node [])) os)))
+  | _, _ -> ("ERR", "ERR")
+
 let rec parse_many toks = match toks with [] -> [] | _ -> let (v, r) = parse_cv toks in v :: parse_many r
 
 let rec nth_opt l i = match l with [] -> None | x :: r -> if i = 0 then Some x else nth_opt r (i - 1)
@@ -92,9 +101,9 @@ let handle line =
              | None -> Buffer.add_string out ("C " ^ i ^ " ERR ERR ; ")
              | Some b ->
                  let ((b', cs), o) = bcreate_st create_detaches_config b in
-                 let shown = (match o, cs with Some _, Some s -> show_sections (Some s) | _, _ -> show_sections b'.b_sections) in
+                 let (shown, allo) = (match o, cs with Some _, Some _ -> show_observed b cs | _, _ -> (show_sections b'.b_sections, "ERR")) in
                  Buffer.add_string out ("C " ^ i ^ " " ^ shown ^ " "
-                                        ^ (match o with Some o -> show_cv (Node o) | None -> "ERR") ^ " ; "));
+                                        ^ (match o with Some o -> show_cv (Node o) | None -> "ERR") ^ " " ^ allo ^ " ; "));
             go (papply create_detaches_config builtin p (PCreate (nat_of_int ii))) r
         | t :: _ -> failwith ("op " ^ t) in
       let p = go empty_proc r1 in
@@ -115,8 +124,8 @@ let handle line =
            let arg k = try Some (List.assoc k al) with Not_found -> None in
            let b = List.fold_left bapply (new_builder builtin) (cli_ops arg files) in
            let ((b', cs), o) = bcreate_st create_detaches_config b in
-           let shown = (match o, cs with Some _, Some s -> show_sections (Some s) | _, _ -> show_sections b'.b_sections) in
-           print_string ("C 0 " ^ shown ^ " " ^ (match o with Some o -> show_cv (Node o) | None -> "ERR") ^ " ; F X\n")
+           let (shown, allo) = (match o, cs with Some _, Some _ -> show_observed b cs | _, _ -> (show_sections b'.b_sections, "ERR")) in
+           print_string ("C 0 " ^ shown ^ " " ^ (match o with Some o -> show_cv (Node o) | None -> "ERR") ^ " " ^ allo ^ " ; F X\n")
        | [] -> failwith "C: file count expected")
   | _ -> print_string "ERR request\n"
 
